@@ -90,14 +90,14 @@ theorem countOld_inj (M : List Cell) {i i' : Nat} (hi : i < M.length) (hi' : i' 
   · exact heq
   · have := countOld_lt M hgt hi' ho'; omega
 
-theorem delLookup_some {M : List Cell} {mk i : Nat} (h : delLookup M mk = some i) :
+theorem delLookup_someI {M : List Cell} {mk i : Nat} (h : delLookup M mk = some i) :
     i ∈ delIdx M ∧ (M.getD i default).line.mkey = mk := by
   unfold delLookup at h
   have := List.mem_of_getLast? h
   simp only [List.mem_filter, beq_iff_eq] at this
   exact this
 
-theorem delLookup_none {M : List Cell} {mk : Nat} (h : delLookup M mk = none) :
+theorem delLookup_noneI {M : List Cell} {mk : Nat} (h : delLookup M mk = none) :
     ∀ i ∈ delIdx M, (M.getD i default).line.mkey ≠ mk := by
   unfold delLookup at h
   rw [List.getLast?_eq_none_iff] at h
@@ -110,11 +110,11 @@ theorem delLookup_none {M : List Cell} {mk : Nat} (h : delLookup M mk = none) :
 theorem delLookup_of (M : List Cell) (hn : ((olds M).map (·.mkey)).Nodup) {i : Nat}
     (hi : i ∈ delIdx M) : delLookup M (M.getD i default).line.mkey = some i := by
   cases h : delLookup M (M.getD i default).line.mkey with
-  | none => exact absurd rfl (delLookup_none h i hi)
+  | none => exact absurd rfl (delLookup_noneI h i hi)
   | some i' =>
-    obtain ⟨h1, h2⟩ := delLookup_some h
-    obtain ⟨hl, ho⟩ := mem_delIdx.mp hi
-    obtain ⟨hl', ho'⟩ := mem_delIdx.mp h1
+    obtain ⟨h1, h2⟩ := delLookup_someI h
+    obtain ⟨hl, ho⟩ := mem_delIdxI.mp hi
+    obtain ⟨hl', ho'⟩ := mem_delIdxI.mp h1
     simp only [Cell.oldOnly, Bool.and_eq_true] at ho ho'
     rw [old_mkey_inj M hn hl' hl ho'.1 ho.1 h2]
 
@@ -132,15 +132,15 @@ theorem lookups_nodup (M : List Cell) (hnn : ((news M).map (·.mkey)).Nodup) :
   simp only [Function.comp, lookupI, newItem, iosDelLookup, Option.map_eq_some_iff] at hb hb'
   obtain ⟨d, hd, rfl⟩ := hb
   obtain ⟨d', hd', hcd⟩ := hb'
-  obtain ⟨h1, h2⟩ := delLookup_some hd
-  obtain ⟨h1', h2'⟩ := delLookup_some hd'
-  obtain ⟨hl, ho⟩ := mem_delIdx.mp h1
-  obtain ⟨hl', ho'⟩ := mem_delIdx.mp h1'
+  obtain ⟨h1, h2⟩ := delLookup_someI hd
+  obtain ⟨h1', h2'⟩ := delLookup_someI hd'
+  obtain ⟨hl, ho⟩ := mem_delIdxI.mp h1
+  obtain ⟨hl', ho'⟩ := mem_delIdxI.mp h1'
   simp only [Cell.oldOnly, Bool.and_eq_true] at ho ho'
   have hdd : d' = d := countOld_inj M hl' hl ho'.1 ho.1 (by rw [hcd, hbb])
   subst hdd
-  obtain ⟨hjl, hjn⟩ := mem_addIdx.mp hj
-  obtain ⟨hjl', hjn'⟩ := mem_addIdx.mp hj'
+  obtain ⟨hjl, hjn⟩ := mem_addIdxI.mp hj
+  obtain ⟨hjl', hjn'⟩ := mem_addIdxI.mp hj'
   simp only [Cell.newOnly, Bool.and_eq_true] at hjn hjn'
   exact new_mkey_inj M hnn hjl hjl' hjn.1 hjn'.1 (by rw [← h2, ← h2'])
 
@@ -245,11 +245,11 @@ structure MInv (M : List Cell) (J K : List Nat) (μ : List Bool) : Prop where
   oldO : ∀ i, i ∈ delIdx M → (μ.getD i false = false ↔
     (i ∈ K ∨ ∃ j ∈ J, (M.getD j default).line.mkey = (M.getD i default).line.mkey))
 
-theorem oldMask_getD (M : List Cell) (i : Nat) (hi : i < M.length) :
+theorem oldMask_getDI (M : List Cell) (i : Nat) (hi : i < M.length) :
     (oldMask M).getD i false = (M.getD i default).old := by
   simp [oldMask, hi, List.getD_eq_getElem?_getD]
 
-theorem newMask_getD (M : List Cell) (i : Nat) (hi : i < M.length) :
+theorem newMask_getDI (M : List Cell) (i : Nat) (hi : i < M.length) :
     (newMask M).getD i false = (M.getD i default).new := by
   simp [newMask, hi, List.getD_eq_getElem?_getD]
 
@@ -258,25 +258,25 @@ theorem minv_init (M : List Cell) : MInv M [] [] (oldMask M) where
   jsub := by simp
   both := by
     intro i hi hb
-    rw [oldMask_getD M i hi]
+    rw [oldMask_getDI M i hi]
     simp [Cell.both] at hb; exact hb.1
   newO := by
     intro i hi
-    obtain ⟨hl, hn⟩ := mem_addIdx.mp hi
-    rw [oldMask_getD M i hl]
+    obtain ⟨hl, hn⟩ := mem_addIdxI.mp hi
+    rw [oldMask_getDI M i hl]
     simp [Cell.newOnly] at hn
     simp [hn.2]
   oldO := by
     intro i hi
-    obtain ⟨hl, ho⟩ := mem_delIdx.mp hi
-    rw [oldMask_getD M i hl]
+    obtain ⟨hl, ho⟩ := mem_delIdxI.mp hi
+    rw [oldMask_getDI M i hl]
     simp [Cell.oldOnly] at ho
     simp [ho.1]
 
 theorem add_del_ne {M : List Cell} {j i : Nat} (hj : j ∈ addIdx M) (hi : i ∈ delIdx M) : j ≠ i := by
   intro h; subst h
-  have h1 := (mem_addIdx.mp hj).2
-  have h2 := (mem_delIdx.mp hi).2
+  have h1 := (mem_addIdxI.mp hj).2
+  have h2 := (mem_delIdxI.mp hi).2
   simp [Cell.newOnly, Cell.oldOnly] at h1 h2
   rw [h1.2] at h2; exact Bool.noConfusion h2.1
 
@@ -299,7 +299,7 @@ theorem minv_add {M : List Cell} {J K : List Nat} {μ : List Bool} (h : MInv M J
   newO := by
     intro i hi
     rw [getD_set, List.mem_cons]
-    have hjl : j < μ.length := by rw [h.len]; exact (mem_addIdx.mp hj).1
+    have hjl : j < μ.length := by rw [h.len]; exact (mem_addIdxI.mp hj).1
     by_cases hij : j = i
     · subst hij; simp only [hjl, and_self, if_true, true_or]
     · have : i ≠ j := fun e => hij e.symm
@@ -329,7 +329,7 @@ theorem minv_del {M : List Cell} {J K : List Nat} {μ : List Bool} (h : MInv M J
     rw [getD_set]
     have : d ≠ i := by
       intro e; subst e
-      have h2 := (mem_delIdx.mp hd).2
+      have h2 := (mem_delIdxI.mp hd).2
       simp [Cell.oldOnly, Cell.both] at h2 hb
       rw [hb.2] at h2; exact Bool.noConfusion h2.2
     simp only [this, false_and, if_false]
@@ -342,7 +342,7 @@ theorem minv_del {M : List Cell} {J K : List Nat} {μ : List Bool} (h : MInv M J
     exact h.newO i hi
   oldO := by
     intro i hi
-    have hdl : d < μ.length := by rw [h.len]; exact (mem_delIdx.mp hd).1
+    have hdl : d < μ.length := by rw [h.len]; exact (mem_delIdxI.mp hd).1
     rw [getD_set, List.mem_cons]
     by_cases hdi : d = i
     · subst hdi; simp [hdl]
@@ -355,7 +355,7 @@ theorem minv_clash {M : List Cell} {J K : List Nat} {μ : List Bool} (h : MInv M
     (hnn : ((news M).map (·.mkey)).Nodup) (hjunk : noJunk M = true) {j : Nat}
     (hj : j ∈ addIdx M) (hjJ : j ∉ J) {i : Nat} (hi : i < M.length) (hm : μ.getD i false = true)
     (hk : (M.getD i default).line.mkey = (M.getD j default).line.mkey) : i ∈ delIdx M := by
-  obtain ⟨hjl, hjn⟩ := mem_addIdx.mp hj
+  obtain ⟨hjl, hjn⟩ := mem_addIdxI.mp hj
   simp only [Cell.newOnly, Bool.and_eq_true] at hjn
   by_cases hn : (M.getD i default).new = true
   · exfalso
@@ -365,7 +365,7 @@ theorem minv_clash {M : List Cell} {J K : List Nat} {μ : List Bool} (h : MInv M
   · have hc : M.getD i default = M[i] := by simp [hi, List.getD_eq_getElem?_getD]
     have := (List.all_eq_true.mp hjunk) M[i] (List.getElem_mem _)
     rw [← hc] at this
-    refine mem_delIdx.mpr ⟨hi, ?_⟩
+    refine mem_delIdxI.mpr ⟨hi, ?_⟩
     simp only [Bool.not_eq_true] at hn
     simp [hn] at this
     simp [Cell.oldOnly, hn, this]
@@ -385,7 +385,7 @@ def supprAt (M : List Cell) (g : Nat → Bool) (j : Nat) : Bool :=
 /-- What the planner sends for new-only cell `j` under suppression flags `g`. -/
 def cellOpsG (M : List Cell) (g : Nat → Bool) (j : Nat) : List IOp := itemOps M (newItem M j, g j)
 
-theorem add_phase (M : List Cell) (hs : SortedNum (allNum M))
+theorem add_phaseI (M : List Cell) (hs : SortedNum (allNum M))
     (hno : ((olds M).map (·.mkey)).Nodup) (hnn : ((news M).map (·.mkey)).Nodup)
     (hjunk : noJunk M = true) (g : Nat → Bool)
     (js : List Nat) (hjs : ∀ j ∈ js, j ∈ addIdx M) (hnd : js.Nodup)
@@ -400,7 +400,7 @@ theorem add_phase (M : List Cell) (hs : SortedNum (allNum M))
   | cons j js ih =>
     have hj : j ∈ addIdx M := hjs j List.mem_cons_self
     have hjJ : j ∉ J := hdisj j List.mem_cons_self
-    obtain ⟨hjl, hjn⟩ := mem_addIdx.mp hj
+    obtain ⟨hjl, hjn⟩ := mem_addIdxI.mp hj
     obtain ⟨hjjs, hnd'⟩ := List.nodup_cons.mp hnd
     have hjs' : ∀ j' ∈ js, j' ∈ addIdx M := fun j' hj' => hjs j' (List.mem_cons_of_mem _ hj')
     have hdisj0 : ∀ j' ∈ js, j' ∉ J := fun j' hj' => hdisj j' (List.mem_cons_of_mem _ hj')
@@ -426,9 +426,9 @@ theorem add_phase (M : List Cell) (hs : SortedNum (allNum M))
         simp [cellOpsG, itemOps, newItem, iosDelLookup, hl]
       have hex := exec_add M hs μ h.len j hjl hfj (by
         intro i hi hm hk
-        exact delLookup_none hl i (minv_clash h hnn hjunk hj hjJ hi hm hk) hk)
+        exact delLookup_noneI hl i (minv_clash h hnn hjunk hj hjJ hi hm hk) hk)
       have hinv : MInv M (j :: J) K (μ.set j true) :=
-        minv_add h hj (fun i hi hk => absurd hk (delLookup_none hl i hi))
+        minv_add h hj (fun i hi hk => absurd hk (delLookup_noneI hl i hi))
       rw [hops]
       simp only [iosExec, List.foldlM_cons, List.foldlM_nil, iosExec1, hex, bind_pure, Option.bind_some]
       exact ih hjs' hnd' (j :: J) K _ hinv hdisj' (by
@@ -449,8 +449,8 @@ theorem add_phase (M : List Cell) (hs : SortedNum (allNum M))
       | false =>
       have hsup : supprAt M g j = false := by simp [supprAt, hg]
       rw [hrev hsup]
-      obtain ⟨hd, hdm⟩ := delLookup_some hl
-      obtain ⟨hdl, hdo⟩ := mem_delIdx.mp hd
+      obtain ⟨hd, hdm⟩ := delLookup_someI hl
+      obtain ⟨hdl, hdo⟩ := mem_delIdxI.mp hd
       simp only [Cell.oldOnly, Bool.and_eq_true] at hdo
       have hops : cellOpsG M g j = [IOp.move (numOf M d) (numOf M j) (M.getD j default).line] := by
         simp [cellOpsG, itemOps, newItem, iosDelLookup, hl, hg, numOf_old M d hdo.1]
@@ -470,7 +470,7 @@ theorem add_phase (M : List Cell) (hs : SortedNum (allNum M))
             · exact hK d hk
             · exact hk
           obtain ⟨j', hj', hm⟩ := hex
-          obtain ⟨hjl', hjn'⟩ := mem_addIdx.mp (h.jsub j' hj')
+          obtain ⟨hjl', hjn'⟩ := mem_addIdxI.mp (h.jsub j' hj')
           simp only [Cell.newOnly, Bool.and_eq_true] at hjn hjn'
           have := new_mkey_inj M hnn hjl' hjl hjn'.1 hjn.1 (by rw [hm, hdm])
           subst this
@@ -501,7 +501,7 @@ theorem add_phase (M : List Cell) (hs : SortedNum (allNum M))
         · obtain ⟨j', hj', hm⟩ := hK d' hd'
           exact ⟨j', List.mem_cons_of_mem _ hj', hm⟩)
 
-theorem del_phase (M : List Cell) (hs : SortedNum (allNum M)) (is : List Nat)
+theorem del_phaseI (M : List Cell) (hs : SortedNum (allNum M)) (is : List Nat)
     (his : ∀ i ∈ is, i ∈ delIdx M) (hnd : is.Nodup) (J K : List Nat) (μ : List Bool)
     (h : MInv M J K μ) (htrue : ∀ i ∈ is, μ.getD i false = true) :
     ∃ μ', iosExec (numbered M μ) (is.map fun i => IOp.del (numOf M i)) = some (numbered M μ') ∧
@@ -511,7 +511,7 @@ theorem del_phase (M : List Cell) (hs : SortedNum (allNum M)) (is : List Nat)
   | cons i is ih =>
     have hi := his i List.mem_cons_self
     obtain ⟨hiis, hnd'⟩ := List.nodup_cons.mp hnd
-    have hex := exec_del M hs μ h.len i (mem_delIdx.mp hi).1 (htrue i List.mem_cons_self)
+    have hex := exec_del M hs μ h.len i (mem_delIdxI.mp hi).1 (htrue i List.mem_cons_self)
     have hinv := minv_del (K := K) h hi
     have hrev : (i :: is).reverse ++ K = is.reverse ++ (i :: K) := by simp
     rw [hrev, List.map_cons, iosExec_cons]
@@ -567,11 +567,11 @@ theorem minv_final {M : List Cell} {J K : List Nat} {μ : List Bool} (h : MInv M
     rw [← hc] at hj
     cases ho : (M.getD i default).old <;> cases hn : (M.getD i default).new
     · simp [ho, hn] at hj
-    · have hmem : i ∈ addIdx M := mem_addIdx.mpr ⟨hi, by simp [Cell.newOnly, ho, hn]⟩
+    · have hmem : i ∈ addIdx M := mem_addIdxI.mpr ⟨hi, by simp [Cell.newOnly, ho, hn]⟩
       simp only [if_true, Bool.false_or]
       rw [Bool.eq_iff_iff, h.newO i hmem, hJ i hmem]
       simp
-    · have hmem : i ∈ delIdx M := mem_delIdx.mpr ⟨hi, by simp [Cell.oldOnly, ho, hn]⟩
+    · have hmem : i ∈ delIdx M := mem_delIdxI.mpr ⟨hi, by simp [Cell.oldOnly, ho, hn]⟩
       simp only [Bool.false_eq_true, if_false, Bool.true_and]
       have h3 := (h.oldO i hmem).trans (hK i hmem)
       have h4 : (S.any fun j => (M.getD j default).line.mkey == (M.getD i default).line.mkey) = true ↔
@@ -760,7 +760,7 @@ theorem plan_no_moves (M : List Cell) (hboth : (M.any fun c => c.old && c.new) =
     cases h : delLookup M (M.getD j default).line.mkey with
     | none => simp [iosDelLookup, h]
     | some d =>
-      obtain ⟨h1, h2⟩ := delLookup_some h
+      obtain ⟨h1, h2⟩ := delLookup_someI h
       exact absurd h2 (hnm d h1 j hj)
   have h1 : ∀ x ∈ ((addIdx M).map (newItem M)).zip flags, itemOps M x = itemOps M (x.1, false) := by
     intro x hx
@@ -794,7 +794,7 @@ theorem delsOf_eq (M : List Cell) :
   have hi' : i ∈ delIdx M := by
     have := (List.mem_filter.mp hi).1
     exact List.mem_reverse.mp this
-  have ho := (mem_delIdx.mp hi').2
+  have ho := (mem_delIdxI.mp hi').2
   simp only [Cell.oldOnly, Bool.and_eq_true] at ho
   simp [numOf_old M i ho.1]
 
@@ -809,7 +809,7 @@ theorem exec_general (M : List Cell) (hjunk : noJunk M = true) (hruns : runsShor
   have hs := allNum_sorted M hjunk hruns
   have haddnd : (addIdx M).Nodup := List.Nodup.sublist List.filter_sublist List.nodup_range
   have hdelnd : (delIdx M).Nodup := List.Nodup.sublist List.filter_sublist List.nodup_range
-  obtain ⟨μ1, K1, hex1, hinv1, hK1⟩ := add_phase M hs hno hnn hjunk g (addIdx M) (fun _ h => h)
+  obtain ⟨μ1, K1, hex1, hinv1, hK1⟩ := add_phaseI M hs hno hnn hjunk g (addIdx M) (fun _ h => h)
     haddnd [] [] (oldMask M) (minv_init M) (by simp) (by simp)
   rw [iosExec_append, hex1, Option.bind_some, delsOf_eq]
   have hJmem : ∀ j, j ∈ ((addIdx M).filter fun j => !supprAt M g j).reverse ++ [] ↔
@@ -825,9 +825,9 @@ theorem exec_general (M : List Cell) (hjunk : noJunk M = true) (hruns : runsShor
       refine ⟨j, hj, ?_⟩
       simp only [iosDelLookup, Option.map_eq_some_iff] at hl
       obtain ⟨d, hd, hc⟩ := hl
-      obtain ⟨h1, h2⟩ := delLookup_some hd
-      obtain ⟨hdl, hdo⟩ := mem_delIdx.mp h1
-      obtain ⟨hil, hio⟩ := mem_delIdx.mp hi
+      obtain ⟨h1, h2⟩ := delLookup_someI hd
+      obtain ⟨hdl, hdo⟩ := mem_delIdxI.mp h1
+      obtain ⟨hil, hio⟩ := mem_delIdxI.mp hi
       simp only [Cell.oldOnly, Bool.and_eq_true] at hdo hio
       have := countOld_inj M hdl hil hdo.1 hio.1 hc
       subst this
@@ -857,7 +857,7 @@ theorem exec_general (M : List Cell) (hjunk : noJunk M = true) (hruns : runsShor
       · obtain ⟨j, hj, hm⟩ := hK1 i hk
         exact ⟨j, ((hJmem j).mp hj).1, hm⟩
       · exact ⟨j, ((hJmem j).mp hj).1, hm⟩
-  obtain ⟨μ2, hex2, hinv2⟩ := del_phase M hs is his hisnd _ K1 μ1 hinv1 htrue
+  obtain ⟨μ2, hex2, hinv2⟩ := del_phaseI M hs is his hisnd _ K1 μ1 hinv1 htrue
   rw [hex2]
   congr 2
   apply minv_final hinv2 hjunk
@@ -880,8 +880,8 @@ theorem exec_general (M : List Cell) (hjunk : noJunk M = true) (hruns : runsShor
         · exact hL
       obtain ⟨j, hj, hm⟩ := hex
       obtain ⟨hja, hjs⟩ := (hJmem j).mp hj
-      obtain ⟨hjl, hjn⟩ := mem_addIdx.mp hja
-      obtain ⟨hjl', hjn'⟩ := mem_addIdx.mp hj'a
+      obtain ⟨hjl, hjn⟩ := mem_addIdxI.mp hja
+      obtain ⟨hjl', hjn'⟩ := mem_addIdxI.mp hj'a
       simp only [Cell.newOnly, Bool.and_eq_true] at hjn hjn'
       have := new_mkey_inj M hnn hjl hjl' hjn.1 hjn'.1 (by rw [hm, hm'])
       subst this
